@@ -493,12 +493,13 @@ func (udc *UpsideDownCouch) UpdateWithAnalysis(doc index.Document,
 		deleteRowsAll = append(deleteRowsAll, deleteRows)
 	}
 
+	// the rows and the doc count change together, see Reader()
+	udc.m.Lock()
 	err = udc.batchRows(kvwriter, addRowsAll, updateRowsAll, deleteRowsAll)
 	if err == nil && backIndexRow == nil {
-		udc.m.Lock()
 		udc.docCount++
-		udc.m.Unlock()
 	}
+	udc.m.Unlock()
 	atomic.AddUint64(&udc.stats.indexTime, uint64(time.Since(indexStart)))
 	if err == nil {
 		atomic.AddUint64(&udc.stats.updates, 1)
@@ -686,12 +687,13 @@ func (udc *UpsideDownCouch) Delete(id string) (err error) {
 		deleteRowsAll = append(deleteRowsAll, deleteRows)
 	}
 
+	// the rows and the doc count change together, see Reader()
+	udc.m.Lock()
 	err = udc.batchRows(kvwriter, nil, nil, deleteRowsAll)
 	if err == nil {
-		udc.m.Lock()
 		udc.docCount--
-		udc.m.Unlock()
 	}
+	udc.m.Unlock()
 	atomic.AddUint64(&udc.stats.indexTime, uint64(time.Since(indexStart)))
 	if err == nil {
 		atomic.AddUint64(&udc.stats.deletes, 1)
@@ -939,22 +941,24 @@ func (udc *UpsideDownCouch) Batch(batch *index.Batch) (err error) {
 		return
 	}
 
+	// the rows and the doc count change together, see Reader()
+	udc.m.Lock()
 	err = udc.batchRows(kvwriter, addRowsAll, updateRowsAll, deleteRowsAll)
 	if err != nil {
+		udc.m.Unlock()
 		_ = kvwriter.Close()
 		atomic.AddUint64(&udc.stats.errors, 1)
 		return
 	}
+	udc.docCount += docsAdded
+	udc.docCount -= docsDeleted
+	udc.m.Unlock()
 
 	err = kvwriter.Close()
 
 	atomic.AddUint64(&udc.stats.indexTime, uint64(time.Since(indexStart)))
 
 	if err == nil {
-		udc.m.Lock()
-		udc.docCount += docsAdded
-		udc.docCount -= docsDeleted
-		udc.m.Unlock()
 		atomic.AddUint64(&udc.stats.updates, numUpdates)
 		atomic.AddUint64(&udc.stats.deletes, docsDeleted)
 		atomic.AddUint64(&udc.stats.batches, 1)
@@ -1008,12 +1012,13 @@ func (udc *UpsideDownCouch) DeleteInternal(key []byte) (err error) {
 }
 
 func (udc *UpsideDownCouch) Reader() (index.IndexReader, error) {
+	// take the store snapshot and the doc count that goes with it
+	udc.m.RLock()
+	defer udc.m.RUnlock()
 	kvr, err := udc.store.Reader()
 	if err != nil {
 		return nil, fmt.Errorf("error opening store reader: %v", err)
 	}
-	udc.m.RLock()
-	defer udc.m.RUnlock()
 	return &IndexReader{
 		index:    udc,
 		kvreader: kvr,
